@@ -24,8 +24,8 @@ pub enum Kind {
   Future(u8),
   /// (period ms, declines when seq reaches limit)
   Repeat(u64, usize),
-  /// same, built with RepeatTask::new_immediate (first run right after the delay)
-  RepeatImmediate(u64, usize),
+  /// same, built with RepeatTask::with_first_delay (own first wait in us, armed at creation)
+  RepeatFirst(u64, usize, u64),
 }
 
 #[derive(Clone, Debug, PartialEq, Eq, Hash)]
@@ -116,8 +116,11 @@ where
     Kind::Repeat(p, lim) => {
       handle_fns(sched.schedule(RepeatTask::new(Duration::from_millis(*p), rep_body, (log.clone(), id, *lim)), delay))
     }
-    Kind::RepeatImmediate(p, lim) => {
-      handle_fns(sched.schedule(RepeatTask::new_immediate(Duration::from_millis(*p), rep_body, (log.clone(), id, *lim)), delay))
+    Kind::RepeatFirst(p, lim, first) => {
+      handle_fns(sched.schedule(
+        RepeatTask::with_first_delay(Duration::from_micros(*first), Duration::from_millis(*p), rep_body, (log.clone(), id, *lim)),
+        delay,
+      ))
     }
   }
 }
@@ -194,7 +197,7 @@ pub fn judge(c: &Case, o: &Result<Obs, String>) -> Option<(String, String, serde
       Kind::Once => "once_task",
       Kind::Subscribing => "subscribing_task",
       Kind::Future(_) => "future_task",
-      Kind::Repeat(..) | Kind::RepeatImmediate(..) => "repeat_task",
+      Kind::Repeat(..) | Kind::RepeatFirst(..) => "repeat_task",
     };
     let evs: Vec<&Ev> = o.evs.iter().filter(|e| e.id == id).collect();
     let show = |why: String| {
@@ -206,7 +209,7 @@ pub fn judge(c: &Case, o: &Result<Obs, String>) -> Option<(String, String, serde
     let runs: Vec<&&Ev> = evs.iter().filter(|e| matches!(e.k, K::Mark("run", _) | K::Mark("rep", _))).collect();
     let cancel = o.cancels.iter().find(|(cid, _, _)| *cid == id);
     match &t.kind {
-      Kind::Repeat(p, lim) | Kind::RepeatImmediate(p, lim) => {
+      Kind::Repeat(p, lim) | Kind::RepeatFirst(p, lim, _) => {
         let seqs: Vec<i64> = runs.iter().filter_map(|e| if let K::Mark("rep", s) = e.k { Some(s) } else { None }).collect();
         if seqs.iter().enumerate().any(|(i, s)| *s != i as i64) {
           return Some(("wrong_sequence_numbers".into(), kname.into(), show(format!("sequence numbers {:?}", seqs))));
@@ -217,8 +220,13 @@ pub fn judge(c: &Case, o: &Result<Obs, String>) -> Option<(String, String, serde
         // never before the delay has elapsed; later runs at least one period apart
         let mut prev: Option<u64> = None;
         for r in &runs {
+          let first = match &t.kind {
+            Kind::RepeatFirst(_, _, f) => *f * 1000,
+            // RepeatTask::new arms one period at creation
+            _ => p * MS,
+          };
           let lo = match prev {
-            None => sched_vt + delay,
+            None => sched_vt + delay.max(first),
             Some(p0) => p0 + p * MS,
           };
           if r.vt < lo {
@@ -270,7 +278,7 @@ pub fn random_case(r: &mut Rng) -> Case {
         0 | 1 => Kind::Once,
         2 => Kind::Subscribing,
         3 => Kind::Future(r.below(3) as u8),
-        4 => Kind::RepeatImmediate([1, 5][r.below(2)], 1 + r.below(4)),
+        4 => Kind::RepeatFirst([1, 5][r.below(2)], 1 + r.below(4), [0, 400, 2000][r.below(3)]),
         _ => Kind::Repeat([1, 5][r.below(2)], 1 + r.below(4)),
       },
       // microseconds: none, zero, sub-millisecond, 1 ms, 5 ms
@@ -303,7 +311,7 @@ pub fn run(cfg: &Cfg, rep: &mut Report) {
         let ran_before = obs.evs.iter().any(|e| e.id == *cid && e.seq < *call && matches!(e.k, K::Mark("run", _)));
         let t = &c.tasks[(*cid - 10) as usize];
         let finished = match t.kind {
-          Kind::Repeat(_, lim) | Kind::RepeatImmediate(_, lim) => obs.evs.iter().filter(|e| e.id == *cid && e.seq < *call && matches!(e.k, K::Mark("rep", _))).count() >= lim,
+          Kind::Repeat(_, lim) | Kind::RepeatFirst(_, lim, _) => obs.evs.iter().filter(|e| e.id == *cid && e.seq < *call && matches!(e.k, K::Mark("rep", _))).count() >= lim,
           _ => ran_before,
         };
         if !finished {
